@@ -166,7 +166,7 @@ func implDuse(t []string) (out string) {
 	zero := reflect.New(reflect.TypeOf(m).Elem()).Interface().(message.Message)
 	rw.Write(zero, false)
 	rw.Write(zero, true)
-	rw.Read(&message.MessageRaw{ID: id, Payload: []byte{}}, true)           //nolint:errcheck
+	rw.Read(&message.MessageRaw{ID: id, Payload: []byte{}}, true)          //nolint:errcheck
 	rw.Read(&message.MessageRaw{ID: id, Payload: make([]byte, 255)}, true) //nolint:errcheck
 	return "ok"
 }
